@@ -210,8 +210,10 @@ class TwistedEventLoop(EventLoop):
         self._twisted_idle_enabled = True
 
     def _twisted_idle_callback(self) -> None:
-        for callback in self._idle_callbacks.values():
-            callback()
+        # a callback may remove (or add) idle callbacks: iterate over a snapshot, skip the removed ones
+        for handle, callback in list(self._idle_callbacks.items()):
+            if handle in self._idle_callbacks:
+                callback()
         self._twisted_idle_enabled = False
 
     def remove_enter_idle(self, handle: int) -> bool:
